@@ -142,7 +142,8 @@ fn main() -> Result<()> {
             dest.to_path_buf()
         };
 
-        if source.is_dir() && target_base.exists() && !target_base.is_dir() {
+        // lstat: a dangling symbolic link is an existing non-directory too.
+        if source.is_dir() && target_base.symlink_metadata().is_ok() && !target_base.is_dir() {
             return Err(XcpError::InvalidDestination("Cannot copy a directory to a file.").into());
         }
         if source == &target_base || (target_base.exists() && is_same_file(source, &target_base)?) {
